@@ -766,12 +766,40 @@ impl TcpConnection {
             }
             None => {
                 tracing::debug!(target: LOG_TARGET, "protocols have disconnected, closing connection");
-                self.protocol_set
+                let result = self
+                    .protocol_set
                     .report_connection_closed(self.peer, self.endpoint.connection_id())
-                    .await?;
+                    .await;
+                self.close_gracefully().await;
+                result?;
                 Ok(true)
             }
         }
+    }
+
+    /// Hand everything the substreams have already written over to the socket and close yamux.
+    ///
+    /// Used when every protocol has released the connection. A substream that was dropped just
+    /// before (typically one whose last message, e.g. a response, had just been written) may still
+    /// have frames queued inside yamux which the event loop has not polled out yet. Returning
+    /// without polling the yamux connection again discards them although the write was reported
+    /// complete. The graceful yamux close drains those frames, sends them and closes the socket;
+    /// it is bounded by the substream open timeout so that a remote that does not read cannot keep
+    /// the task alive.
+    async fn close_gracefully(&mut self) {
+        let mut control = self.control.clone();
+        let connection = &mut self.connection;
+
+        let _ = tokio::time::timeout(self.substream_open_timeout, async move {
+            futures::future::join(
+                async move {
+                    let _ = control.close().await;
+                },
+                async move { while let Some(Ok(_)) = connection.next().await {} },
+            )
+            .await
+        })
+        .await;
     }
 
     /// Start the connection event loop without notifying protocols.
